@@ -13,6 +13,13 @@ of messages the real code relayed to the initiator / to the source during this o
 only orders ENABLED actions (a direction that still owes messages goes first, otherwise latch
 and clean-up actions go first); it can never make the model relay a message it could not relay,
 nor stop a direction that nothing stops — a real divergence still shows up as a different line.
+
+Events of a burst (`parseEvent`): `src msg n | src eof | src err | src unknown | ini ack n | ini eof |
+ini err | ini unknown | ini cancel | srcsendfail | inisendfail | shutdown | tick`, and the flow-control
+events `stall s | stall i | unstall s | unstall i` (`Act.stall d` / `Act.unstall d`: the peer that
+direction `d`'s loop sends to stops / resumes reading; `s` = the initiator, `i` = the source).
+While a loop is blocked in `Send` the observation line simply shows nothing new for that direction
+and the goroutines stay alive.
 -/
 namespace Drv.Forwarder
 open S2S.Forwarder
@@ -24,7 +31,9 @@ structure DSt where
   seenI   : Nat := 0           -- messages to the initiator already reported
   seenS   : Nat := 0           -- messages to the source already reported
 
-def dataPath (d : D) : List Act := [.rProc d, .lHand d, .lRecv d, .lCheck d]
+/-- the listener goroutine keeps running after the unbuffered hand-off (the relay loop is only made runnable): its loop
+    condition is evaluated before the relay loop has processed the value — visible when the loop then ends or blocks -/
+def dataPath (d : D) : List Act := [.lCheck d, .rProc d, .lHand d, .lRecv d]
 
 def cleanup : List Act :=
   [.rDefer .s, .rDefer .i, .rLatch .s, .rLatch .i, .rClosed .s, .rClosed .i, .lQuit .s, .lQuit .i,
@@ -97,6 +106,12 @@ def parseEvent : List String → Option Act
   | ["ini", "cancel"] => some .iniCancel
   | ["srcsendfail"] => some (.sendFail .i)      -- the source's stream no longer accepts Send: direction i's loop fails
   | ["inisendfail"] => some (.sendFail .s)
+  -- the peer that direction `d`'s relay loop SENDS to stops / resumes reading (gRPC flow control: `Send` blocks):
+  -- `stall s` = the initiator does not read (blocks `forwardReplicationMessages`), `stall i` = the source does not read
+  | ["stall", "s"] => some (.stall .s)
+  | ["stall", "i"] => some (.stall .i)
+  | ["unstall", "s"] => some (.unstall .s)
+  | ["unstall", "i"] => some (.unstall .i)
   | ["shutdown"] => some .shutdown
   | ["tick"] => some .tick
   | _ => none
